@@ -24,13 +24,16 @@ onlyclient=$(grep "^FAIL\s*github.com" /tmp/seeded/$N/suite.log | grep -vc "haqq
 echo "suite: failing packages=$fails other-than-client=$onlyclient"
 if [ "$with" != "0" ] && [ "$without" = "0" ] && [ "$onlyclient" = "0" ]; then
   mkdir -p $OUT; cp $SD/patch.diff $OUT/; (cd /tmp/seeded/$N/aside && find . -name '*_test.go' -exec cp {} $OUT/ \;)
-  python3 - <<PY
-import json
-m=json.load(open('$SD/meta.json'))
-m['property']='$PROP'
-m['confirmed_by_main']={'demo_with_change_rc':$with,'demo_without_change_rc':$without,'suite_failing_packages_other_than_preexisting_client':$onlyclient,
-  'commands':['$DEMO (in scratch worktree, with and without patch.diff)','go build ./... && go test -vet=off -count=1 -timeout 25m ./... (with patch, demo file moved aside)']}
-json.dump(m,open('$OUT/meta.json','w'),indent=1)
+  WITH=$with WITHOUT=$without ONLY=$onlyclient DEMO="$DEMO" SD=$SD OUT=$OUT PROP=$PROP python3 - <<'PY'
+import json,os
+e=os.environ
+m=json.load(open(e['SD']+'/meta.json'))
+m['property']=e['PROP']
+m['confirmed_by_main']={'demo_with_change_rc':int(e['WITH']),'demo_without_change_rc':int(e['WITHOUT']),
+  'suite_failing_packages_other_than_preexisting_client':int(e['ONLY']),
+  'commands':[e['DEMO']+'   (in the scratch worktree, with and without patch.diff)',
+              'go build ./... && go test -vet=off -count=1 -timeout 25m ./...   (with patch, demo file moved aside)']}
+json.dump(m,open(e['OUT']+'/meta.json','w'),indent=1)
 PY
   echo "CONFIRMED -> $OUT"
   git -C /repo worktree remove --force $WT
